@@ -67,7 +67,8 @@ def check(ctx):
             for b, t, fr in ris.iter_calls():
                 if fr and lib.tail(mir.fn_name(fr), 2) == "Commands::queue":
                     agg = linear.agg_of(ris, t["args"][1])
-                    if agg and agg["kind"] == "closure" and any(linear.is_res(ris, c, res) for c in agg["ops"]):
+                    if (agg and agg["kind"] == "closure" and any(linear.is_res(ris, c, res) for c in agg["ops"])) \
+                            or linear.is_res(ris, t["args"][1], res):      # `queue(move |w| cleanup(w))` or `queue(cleanup)`
                         # on the world's own queue
                         recv = origins(ris, t["args"][0])
                         own = all(o[0] == "call" and lib.tail(mir.fn_name(op_fn(ris.blocks[o[1]]["term"]["func"])), 2) == "World::commands"
